@@ -31,6 +31,7 @@ EXPLANATION = (
   " (ITEM-source) an object built once per item of an inner loop is filled only with values that derive from that item or do not vary with the loops, never with a value of the enclosing container standing where the item's own belongs;"
   ' (LOOP-break) no loop over the items of a collection is left by a branch that does nothing but `break` on a test about the item (end-of-input sentinels, flags set in the loop body and searches whose variable is read afterwards excepted): an item that is to be skipped does not end the processing of the items after it;'
   ' (FIN-regex) as in C13 for the white-space collapsing substitution;'
+  ' (ORD-style) as in C13: the display test that prunes an element runs after every source of its display value has been applied (animation, specified, initial values);'
 )
 RULE_TEXT = "per guard x ordering table, per grid, per call site, per truth table"
 UNDECIDED = ["interval arithmetic under arbitrary nesting as values", "text appears once each, in document order, nothing moved between regions (data dependent)",
@@ -171,4 +172,5 @@ def run(ctx):
   ncp = isdrules.check_clone_pruning(ctx)
   ctx.floor("CLONE-prune", "pruning guards of the per-region clone", ncp, 1)
   common.check_regex_probes(ctx, ["ttconv.isd"], floor=1)
+  isdrules.check_style_order(ctx)
   common.check_history_independence(ctx, common.CORE)
